@@ -407,8 +407,45 @@ pub fn run(run: &mut Run) {
         "map keys are deduplicated by the generator (a Rust map cannot hold duplicates)".into(),
     ];
     run.prop("round-trip", strategy, run.tier.pick(80_000, 3_000_000), oracle);
+    // the round trip does not depend on what the same thread was made to decode (and reject) before
+    run.prop("round-trip-after-rejections", after_strategy, run.tier.pick(1_500, 60_000), after_oracle);
+}
+
+#[derive(Clone, Debug, Serialize, Deserialize)]
+pub struct AfterCase {
+    pub before: Vec<(crate::props::c03::Junk, u8)>,
+    pub value: Case,
+}
+
+pub fn after_oracle(c: &AfterCase) -> Verdict {
+    let mut rejected = 0usize;
+    for (j, rep) in &c.before {
+        let b = crate::props::c03::junk_bytes(j);
+        for _ in 0..(*rep).max(1) {
+            rejected += erltf::decode(&b).is_err() as usize;
+            let _ = erltf::decode_borrowed(&b);
+        }
+    }
+    match oracle(&c.value) {
+        Verdict::Pass(i) => Verdict::Pass(if rejected > 0 { i.class("after-rejections") } else { CaseInfo::trivial() }),
+        Verdict::Fail { signature, detail } => {
+            // the same value on a fresh thread tells a history dependence from a plain round-trip defect
+            let v = c.value.clone();
+            let fresh = std::thread::Builder::new().stack_size(32 << 20).spawn(move || matches!(oracle(&v), Verdict::Pass(_))).expect("spawn").join().unwrap_or(false);
+            if fresh {
+                Verdict::Fail { signature: "round-trip-depends-on-earlier-decodes".into(), detail: format!("after {rejected} rejected inputs on the same thread: {signature}: {detail}") }
+            } else {
+                Verdict::Fail { signature, detail }
+            }
+        }
+        other => other,
+    }
+}
+
+fn after_strategy() -> impl Strategy<Value = AfterCase> {
+    (crate::props::c03::after_strategy(), strategy()).prop_map(|(a, value)| AfterCase { before: a.before, value })
 }
 
 pub fn replays() -> Vec<ReplayEntry> {
-    vec![replay_entry("round-trip", oracle)]
+    vec![replay_entry("round-trip", oracle), replay_entry("round-trip-after-rejections", after_oracle)]
 }
